@@ -532,6 +532,19 @@ func (d *interfaceDecoder) DecodePath(ctx *RuntimeContext, cursor, depth int64) 
 		return d.mapDecoder.DecodePath(ctx, cursor, depth)
 	case '[':
 		return d.sliceDecoder.DecodePath(ctx, cursor, depth)
+	}
+	// a scalar is reached only with a selector still to apply: there is nothing
+	// to select from it; it is read and left out
+	_, cursor, err := d.decodeScalarPath(ctx, cursor, depth)
+	if err != nil {
+		return nil, 0, err
+	}
+	return nil, cursor, nil
+}
+
+func (d *interfaceDecoder) decodeScalarPath(ctx *RuntimeContext, cursor, depth int64) ([][]byte, int64, error) {
+	buf := ctx.Buf
+	switch buf[cursor] {
 	case '-', '0', '1', '2', '3', '4', '5', '6', '7', '8', '9':
 		return d.floatDecoder.DecodePath(ctx, cursor, depth)
 	case '"':
